@@ -261,7 +261,7 @@ impl Scene for Reg {
     }
 }
 
-fn cases(tier: Tier) -> Vec<Case> {
+fn base_cases(tier: Tier) -> Vec<Case> {
     let mut v = vec![];
     let mut causes = vec![
         Cause::Stop,
@@ -308,6 +308,13 @@ fn cases(tier: Tier) -> Vec<Case> {
         }
     }
     v
+}
+
+fn cases(tier: Tier) -> Vec<Case> {
+    // neutral re-configurations (see check::widen); the cause that needs a firing handler
+    // timeout keeps its own configuration and has no counterpart on the stream loop
+    let no_timeout = |d: &str| !d.contains("TimeoutFail");
+    crate::check::widen(&|| base_cases(tier), &no_timeout, &|_| true, Some(&no_timeout))
 }
 
 pub fn property() -> Property {
